@@ -47,7 +47,7 @@ def taint_from(fn, seeds, through_bin=False):
                       or (o or "").startswith("core::iter::traits::") or (o or "").startswith("alloc::vec::Vec::<T, A>::into_")
                       or (o or "").startswith("core::slice::<impl [T]>::iter")) and ai == 0:
                     if o and o.endswith("::collect") or True:
-                        via_collection = via_collection or (o or "").endswith("::collect")
+                        via_collection = via_collection or (o or "").endswith("::collect") or o in (INTO_ITER, NEXT)
                     tgt = n["dest"]["l"]
             elif how == "rv":
                 rv = n["rv"]
